@@ -61,14 +61,15 @@ Definition ms0 : mstate := mkMs [] [] None None.
 Definition snoc (s : option ustring) (c : Z) : option ustring :=
   match s with Some f => Some (f ++ [c]) | None => None end.
 
-(** one character of collect_metadata; None = the Python raises (a ':' closing a key that has
-    no value text yet: None[0:...]) *)
-Definition mstep (s : mstate) (c : Z) : option mstate :=
+(** one character of collect_metadata.  [q] is the deviation switch of the repaired defect D23: a ':'
+    closing a key that has no value text yet sliced None (None[0:...]) and the parse raised TypeError
+    (None here); repaired, the key is recorded without a value. *)
+Definition mstep_gen (q : bool) (s : mstate) (c : Z) : option mstate :=
   if c =? COLON then
     match mname s with
     | Some n =>
         match mfield s with
-        | None => None
+        | None => if q then None else Some (mkMs [] (set_field n None (mfields s)) (Some (strip (cw s))) None)
         | Some f =>
             let f' := firstn (length f - length (cw s)) f in
             Some (mkMs [] (set_field n (Some (strip f')) (mfields s)) (Some (strip (cw s))) None)
@@ -85,6 +86,7 @@ Definition mstep (s : mstate) (c : Z) : option mstate :=
     Some (mkMs [] (mfields s) (mname s) (match mname s with Some _ => snoc (mfield s) c | None => mfield s end))
   else
     Some (mkMs [] (mfields s) (mname s) (snoc (mfield s) c)).
+Definition mstep := mstep_gen false.
 
 Fixpoint mrun (s : mstate) (t : ustring) : option mstate :=
   match t with
@@ -100,6 +102,14 @@ Definition mfinish (s : mstate) : fields :=
 
 Definition collect_metadata (comment : ustring) : option fields :=
   option_map mfinish (mrun ms0 comment).
+
+(** the unrepaired behaviour (D23), kept for the witness and for attributing a disagreement *)
+Fixpoint mrun_d23 (s : mstate) (t : ustring) : option mstate :=
+  match t with
+  | [] => Some s
+  | c :: r => match mstep_gen true s c with Some s' => mrun_d23 s' r | None => None end
+  end.
+Definition collect_metadata_d23 (comment : ustring) : option fields := option_map mfinish (mrun_d23 ms0 comment).
 
 Fixpoint lookup (k : ustring) (fs : fields) : option (option ustring) :=
   match fs with
